@@ -36,6 +36,10 @@ type venv struct {
 	cands    map[string]bool
 	seq      int
 	user     neotest.Signer
+	// helper contract that re-enters cheque from its payment callback (zero if not deployed) and what it is armed with
+	reenterH    util.Uint160
+	armedID     string
+	armedAmount int64
 }
 
 func newVenv(b *runner.Batch, n int) (*venv, error) {
@@ -68,6 +72,13 @@ func newVenv(b *runner.Batch, n int) (*venv, error) {
 	}
 	w.FundGAS(v.user.ScriptHash(), 100000_0000_0000)
 	w.FundGAS(v.stranger.ScriptHash(), 100_0000_0000)
+	if h := b.Helpers["reenter"]; h != nil {
+		hd, err := w.Deploy("reenter", h, nil)
+		if err != nil {
+			return nil, err
+		}
+		v.reenterH = hd.Hash
+	}
 	w.KeepHistory = false
 	return v, nil
 }
@@ -126,6 +137,12 @@ type call struct {
 	// pre captures the state the effect is measured against, right before the block is executed
 	pre  func()
 	desc string
+	// reenter: the payee is the armed helper contract, which asks for its armed cheque again from inside the
+	// payment callback: one more vote by the same caller in the same transaction; extraPaid is what that
+	// nested decision pays if it fires
+	reenter   bool
+	extraPaid int64
+	extraN    int
 }
 
 func (v *venv) caller(i int) (neotest.Signer, []byte, bool) {
@@ -197,6 +214,16 @@ func (v *venv) runBlock(cs []*call) {
 			continue
 		}
 		fires := v.vote(c.voteID, c.pub, height)
+		c.extraPaid, c.extraN = 0, 0
+		if fires && c.reenter && v.armedID != "" {
+			// the callback's nested cheque call: a vote of the same caller for the armed id, in a round of its own
+			id, amt := v.armedID, v.armedAmount
+			v.armedID = ""
+			if v.vote(id, c.pub, height) {
+				c.extraPaid, c.extraN = amt, 1
+			}
+			b.Hit("cheque-receiver-re-enters")
+		}
 		if !r.Halted() {
 			b.Violation(fmt.Sprintf("%s by an Alphabet key failed: %s", c.method, r.Fault), det())
 			continue
@@ -263,12 +290,14 @@ func (v *venv) setConfigCall(caller int, id string) *call {
 func (v *venv) chequeCall(caller int, id string, payee util.Uint160, amount int64) *call {
 	s, pub, alpha := v.caller(caller)
 	var before *big.Int
-	return &call{pre: func() { before = v.w.GASOf(payee) }, method: "cheque", args: []any{[]byte(id), payee, amount, []byte{1, 2}}, voteID: id, signer: s, pub: pub, alpha: alpha, desc: fmt.Sprintf("cheque(id %q, %d) by caller %d", id, amount, caller),
+	var c *call
+	c = &call{pre: func() { before = v.w.GASOf(payee) }, method: "cheque", args: []any{[]byte(id), payee, amount, []byte{1, 2}}, voteID: id, signer: s, pub: pub, alpha: alpha, desc: fmt.Sprintf("cheque(id %q, %d) by caller %d", id, amount, caller),
+		reenter: payee == v.reenterH && v.reenterH != (util.Uint160{}),
 		fired: func(r *world.TxResult, readback bool) string {
 			evs := v.eventsNamed(r, "Cheque")
 			d := new(big.Int).Sub(v.w.GASOf(payee), before)
-			if len(evs) != 1 || d.Cmp(big.NewInt(amount)) != 0 {
-				return fmt.Sprintf("%d Cheque notifications, payee balance changed by %s (amount %d)", len(evs), d, amount)
+			if len(evs) != 1+c.extraN || d.Cmp(big.NewInt(amount+c.extraPaid)) != 0 {
+				return fmt.Sprintf("%d Cheque notifications, payee balance changed by %s (amount %d, nested decision pays %d)", len(evs), d, amount, c.extraPaid)
 			}
 			return ""
 		},
@@ -279,6 +308,16 @@ func (v *venv) chequeCall(caller int, id string, payee util.Uint160, amount int6
 			}
 			return ""
 		}}
+	return c
+}
+
+// arm lets the re-entering receiver ask for cheque(id, itself, amount) on its next payment from NeoFS.
+func (v *venv) arm(id string, amount int64) {
+	r := v.w.Invoke([]world.SignerSpec{world.G(v.user)}, v.reenterH, "arm", v.nfs, []byte(id), amount)
+	v.b.Tx(1)
+	if r.Halted() {
+		v.armedID, v.armedAmount = id, amount
+	}
 }
 
 func (v *venv) alphabetList() [][]byte {
@@ -563,7 +602,20 @@ func runC17(b *runner.Batch) {
 			case 0, 1, 2, 3:
 				blk = append(blk, v.setConfigCall(caller, runner.Pick(r, ids)+"-cfg"))
 			case 4, 5:
-				blk = append(blk, v.chequeCall(caller, runner.Pick(r, ids)+"-chq", payee, int64(1+r.IntN(1000))))
+				cid, amt, to := runner.Pick(r, ids)+"-chq", int64(1+r.IntN(1000)), payee
+				if v.reenterH != (util.Uint160{}) && r.IntN(3) == 0 {
+					// the receiver is a contract that asks for a cheque again from inside its payment callback: the
+					// same decision (same id) half of the time, the competing id otherwise (seeded change C17-6)
+					to = v.reenterH
+					if v.armedID == "" && r.IntN(2) == 0 {
+						aid := cid
+						if r.IntN(2) == 0 {
+							aid = runner.Pick(r, ids) + "-chq"
+						}
+						v.arm(aid, int64(1+r.IntN(1000)))
+					}
+				}
+				blk = append(blk, v.chequeCall(caller, cid, to, amt))
 			case 6:
 				ck := world.Key(b.Seed, b.Index, "cand", 2+r.IntN(2))
 				pb := ck.PublicKey().Bytes()
@@ -612,9 +664,9 @@ func init() {
 		ID: "C17", Level: "exploration",
 		Rule:        "NeoFS contract deployed with notaryDisabled=true and n stored Alphabet keys. Exhaustive part: every sequence of setConfig calls of length 3 (quick) / 4 (thorough) for n = 1..3 over the step alphabet {stranger, each Alphabet key} x {2 decision ids} x {block gap 0 (same block), 1, 20, 21}; every prefix is judged. PRNG part: n = 1..7, cheque / alphabetUpdate (changes n and the threshold) / innerRingCandidateRemove / setConfig, gaps {1,2,5,19,20,21,22}, strangers. A ballot model predicts the exact invocation in which each decision fires; the effect (config value, payee GAS, Alphabet list, candidate list) and the notification must appear exactly there. distinct = (method, caller class, n, fires, live ballots).",
 		Assumptions: []string{"neo-go v0.107.0 VM, ledger and native contracts are the trusted base", "contracts are compiled at check time from /repo/contracts", "a call witnessed by several Alphabet keys is not generated (the contract counts the first one)"},
-		Batches:     c17Batches, Chunk: 2,
+		Batches:     c17Batches, Chunk: 2, Helpers: []string{"reenter"},
 		Floors: []string{"exhaustive-sequences", "fired-at-threshold-n1", "fired-at-threshold-n2", "fired-at-threshold-n3", "fired-at-threshold-n4", "fired-at-threshold-n5", "fired-at-threshold-n6", "fired-at-threshold-n7",
-			"stranger-call", "duplicate-vote", "stale-ballot-expired", "ballot-survives-gap-20", "several-votes-in-one-block", "fired:setConfig", "fired:cheque", "fired:alphabetUpdate", "fired:innerRingCandidateRemove", "candidate-removes-itself", "removal-vote-for-a-key-that-is-not-listed", "decision-about-an-unlisted-key-then-registration"},
+			"stranger-call", "duplicate-vote", "stale-ballot-expired", "ballot-survives-gap-20", "several-votes-in-one-block", "fired:setConfig", "fired:cheque", "fired:alphabetUpdate", "fired:innerRingCandidateRemove", "candidate-removes-itself", "removal-vote-for-a-key-that-is-not-listed", "decision-about-an-unlisted-key-then-registration", "cheque-receiver-re-enters"},
 		Run: runC17,
 		Exhaustive: func(tier string) (bool, string) {
 			l := 3
